@@ -4,6 +4,9 @@ package main
 
 var allStates = []string{"todo", "doing", "done", "blocked", "canceled", "error"}
 
+func with(m SeqModel, f func(*SeqModel)) SeqModel { f(&m); return m }
+
+// states and claims: the full request cross product on one or two tasks
 func famState(depth int) SeqModel {
 	return SeqModel{Name: "state", MaxTasks: 2, MaxEpics: 1, Depth: depth,
 		Agents: []string{"a1", "a2"}, CmdNames: []string{"new_task", "new_epic", "set", "claim_id", "claim"},
@@ -11,13 +14,133 @@ func famState(depth int) SeqModel {
 		Extras: []string{}, ViewMode: "graph"}
 }
 
+// items and edges: dependency graph, epic membership, prune
+func famGraph(tasks, epics, depth int) SeqModel {
+	return SeqModel{Name: "graph", MaxTasks: tasks, MaxEpics: epics, Depth: depth,
+		Agents: []string{"a1"}, CmdNames: []string{"new_task", "new_epic", "sequence", "sequence_rm", "set", "prune"},
+		StateArgs: []string{"done", "todo"}, ClaimArgs: []string{},
+		Extras: []string{"set_epic"}, ViewMode: "graph"}
+}
+
+// ids that must be refused: pruned, unknown, wrong kind
+func famIds(tasks, epics, depth int) SeqModel {
+	return SeqModel{Name: "ids", MaxTasks: tasks, MaxEpics: epics, Depth: depth,
+		Agents: []string{"a1"}, CmdNames: []string{"new_task", "new_epic", "sequence", "sequence_rm", "set", "prune", "prune_dry", "compact", "claim_id", "claim"},
+		StateArgs: []string{"done", "canceled", "todo"}, ClaimArgs: []string{},
+		Extras: []string{"set_epic", "badid", "badepic"}, ViewMode: "graph"}
+}
+
+// readiness: states x dependencies x epic dependencies
+func famReady(tasks, epics, depth int) SeqModel {
+	return SeqModel{Name: "ready", MaxTasks: tasks, MaxEpics: epics, Depth: depth,
+		Agents: []string{"a1"}, CmdNames: []string{"new_task", "new_epic", "sequence", "set", "claim", "list_ready", "prune"},
+		StateArgs: []string{"done", "canceled", "blocked", "todo", "doing", "error"}, ClaimArgs: []string{},
+		Extras: []string{"claim_epic"}, ViewMode: "graph"}
+}
+
+// plan documents
+func famPlan(depth int) SeqModel {
+	return SeqModel{Name: "plan", MaxTasks: 4, MaxEpics: 2, Depth: depth,
+		Agents: []string{"a1"}, CmdNames: []string{"new_task", "plan", "set", "sequence", "prune"},
+		StateArgs: []string{"done"}, ClaimArgs: []string{},
+		Extras: []string{}, PlanDocs: "DocsSmall", ViewMode: "graph"}
+}
+
+// everything, small
+func famFull(depth int) SeqModel {
+	return SeqModel{Name: "full", MaxTasks: 2, MaxEpics: 1, Depth: depth,
+		Agents: []string{"a1"}, CmdNames: []string{"new_task", "new_epic", "set", "claim_id", "claim", "sequence", "sequence_rm",
+			"prune", "prune_dry", "compact", "plan", "list_ready"},
+		StateArgs: []string{"doing", "done", "error", "todo", "bogus"}, ClaimArgs: []string{"", "a1"},
+		Extras: []string{"set_epic", "badid", "badepic", "text", "results", "chains"}, PlanDocs: "DocsSmall", ViewMode: "graph"}
+}
+
+// compaction with meta-data: timed view
+func famCompact(depth int) SeqModel {
+	return SeqModel{Name: "compact", MaxTasks: 1, MaxEpics: 2, Depth: depth,
+		Agents: []string{"a1", "a2"}, CmdNames: []string{"new_task", "new_epic", "set", "claim", "compact"},
+		StateArgs: []string{"todo", "done", "doing"}, ClaimArgs: []string{},
+		Extras: []string{"set_epic", "text", "results"}, ViewMode: "timed"}
+}
+
+func famResults(depth int) SeqModel {
+	return SeqModel{Name: "results", MaxTasks: 2, MaxEpics: 1, Depth: depth,
+		Agents: []string{"a1"}, CmdNames: []string{"new_task", "new_epic", "set", "prune", "compact"},
+		StateArgs: []string{"done", "todo"}, ClaimArgs: []string{},
+		Extras: []string{"results", "badid", "set_epic"}, ViewMode: "graph"}
+}
+
 func init() {
 	registry["C06"] = func() Check {
-		sim := famState(12)
-		sim.MaxTasks = 3
 		return &SeqCheck{Prop: "C06",
 			Ideal: famState(5), IdealProps: []string{"P_C06", "P_C10"}, IdealInvs: []string{"CodeReadyIsSpecReady"},
-			GenQuick: famState(3), GenThorough: famState(5), SampleQuick: 40,
-			Sim: sim, SimNumQuick: 60, SimNumThorough: 2000}
+			GenQuick: famState(3), GenThorough: famState(5), SampleQuick: 150,
+			Sim: with(famState(12), func(m *SeqModel) { m.MaxTasks = 3 }), SimNumQuick: 60, SimNumThorough: 2000}
+	}
+	registry["C07"] = func() Check {
+		return &SeqCheck{Prop: "C07",
+			Ideal: famGraph(3, 2, 5), IdealDeep: famGraph(3, 2, 7), IdealProps: []string{"P_C07"},
+			GenQuick: famGraph(3, 1, 4), GenThorough: famGraph(3, 2, 6), SampleQuick: 120,
+			Sim: with(famGraph(4, 2, 14), func(m *SeqModel) { m.Extras = append(m.Extras, "chains", "badid") }), SimNumQuick: 60, SimNumThorough: 2000}
+	}
+	registry["C08"] = func() Check {
+		return &SeqCheck{Prop: "C08",
+			Ideal: famReady(3, 2, 5), IdealDeep: famReady(3, 2, 7), IdealProps: []string{"P_C08"}, IdealInvs: []string{"CodeReadyIsSpecReady"},
+			GenQuick: famReady(2, 2, 4), GenThorough: famReady(3, 2, 6), SampleQuick: 120,
+			Sim: famReady(4, 2, 14), SimNumQuick: 60, SimNumThorough: 2000}
+	}
+	registry["C09"] = func() Check {
+		return &SeqCheck{Prop: "C09",
+			Ideal: famIds(2, 1, 5), IdealDeep: famIds(3, 1, 6), IdealProps: []string{"P_C09"}, IdealInvs: []string{"CodePruneIsSpecPrune"},
+			GenQuick: famIds(2, 1, 4), GenThorough: famIds(2, 1, 6), SampleQuick: 100,
+			Sim: famIds(3, 2, 12), SimNumQuick: 60, SimNumThorough: 2000}
+	}
+	registry["C10"] = func() Check {
+		return &SeqCheck{Prop: "C10",
+			Ideal: famFull(3), IdealDeep: famFull(4), IdealProps: []string{"P_C10"}, Probes: probeHalf,
+			GenQuick: famFull(2), GenThorough: famFull(4), SampleQuick: 60,
+			Sim: with(famFull(10), func(m *SeqModel) { m.MaxTasks = 3 }), SimNumQuick: 80, SimNumThorough: 3000}
+	}
+	registry["C11"] = func() Check {
+		return &SeqCheck{Prop: "C11",
+			Ideal: famPlan(3), IdealDeep: famPlan(4), IdealProps: []string{"P_C11"},
+			GenQuick: famPlan(2), GenThorough: famPlan(4), SampleQuick: 100,
+			Sim: famPlan(8), SimNumQuick: 60, SimNumThorough: 1500}
+	}
+	registry["C14"] = func() Check {
+		return &SeqCheck{Prop: "C14",
+			Ideal: famIds(2, 2, 4), IdealDeep: famIds(3, 2, 6), IdealProps: []string{"P_C14"}, Probes: probeEpicRef,
+			GenQuick: famIds(2, 1, 4), GenThorough: famIds(2, 2, 6), SampleQuick: 100,
+			Sim: famIds(3, 2, 12), SimNumQuick: 60, SimNumThorough: 2000}
+	}
+	registry["C15"] = func() Check {
+		return &SeqCheck{Prop: "C15",
+			Ideal: famGraph(3, 2, 5), IdealDeep: famGraph(3, 2, 7), IdealProps: []string{"P_C15"}, IdealInvs: []string{"CodeWaitsIsSpecWaits"}, Probes: probeD10,
+			GenQuick: famGraph(2, 2, 5), GenThorough: famGraph(3, 2, 7), SampleQuick: 150,
+			Sim: with(famGraph(4, 2, 14), func(m *SeqModel) { m.CmdNames = append(m.CmdNames, "claim") }), SimNumQuick: 60, SimNumThorough: 2000}
+	}
+	registry["C16"] = func() Check {
+		return &SeqCheck{Prop: "C16",
+			Ideal: famFull(3), IdealDeep: famFull(4), IdealProps: []string{"P_C16"}, Probes: probeHalf,
+			GenQuick: famFull(2), GenThorough: famFull(4), SampleQuick: 60,
+			Sim: with(famFull(10), func(m *SeqModel) { m.MaxTasks = 3 }), SimNumQuick: 80, SimNumThorough: 3000}
+	}
+	registry["C20"] = func() Check {
+		return &SeqCheck{Prop: "C20",
+			Ideal: famResults(4), IdealDeep: famResults(5), IdealProps: []string{"P_C20"},
+			GenQuick: famResults(3), GenThorough: famResults(5), SampleQuick: 100,
+			Sim: famResults(10), SimNumQuick: 60, SimNumThorough: 1500}
+	}
+	registry["C05"] = func() Check {
+		return &SeqCheck{Prop: "C05",
+			Ideal: famCompact(5), IdealDeep: famCompact(7), IdealProps: []string{"P_C05"},
+			GenQuick: famCompact(4), GenThorough: famCompact(6), SampleQuick: 150,
+			Sim: with(famFull(12), func(m *SeqModel) { m.MaxTasks = 3; m.ViewMode = "timed" }), SimNumQuick: 60, SimNumThorough: 2000}
+	}
+	registry["C12"] = func() Check {
+		return &SeqCheck{Prop: "C12",
+			Ideal: famFull(3), IdealDeep: famFull(4), IdealProps: []string{"P_C12"},
+			GenQuick: famFull(2), GenThorough: famFull(4), SampleQuick: 60,
+			Sim: with(famFull(10), func(m *SeqModel) { m.MaxTasks = 3 }), SimNumQuick: 80, SimNumThorough: 3000}
 	}
 }
